@@ -248,7 +248,11 @@ impl RunDir {
         self.path.join(name)
     }
     pub fn write(&self, name: &str, data: &[u8]) {
-        std::fs::write(self.p(name), data).expect("write input");
+        let p = self.p(name);
+        if let Some(parent) = p.parent() {
+            let _ = std::fs::create_dir_all(parent);
+        }
+        std::fs::write(p, data).expect("write input");
     }
     pub fn read(&self, name: &str) -> Option<Vec<u8>> {
         std::fs::read(self.p(name)).ok()
@@ -262,14 +266,22 @@ impl RunDir {
     pub fn digest(&self, name: &str) -> Option<u64> {
         self.read(name).map(|d| fnv(&d))
     }
+    /// every file below the run directory, as relative paths, sorted
     pub fn listing(&self) -> Vec<String> {
-        let mut v: Vec<String> = std::fs::read_dir(&self.path)
-            .map(|rd| {
-                rd.filter_map(|e| e.ok())
-                    .map(|e| e.file_name().to_string_lossy().to_string())
-                    .collect()
-            })
-            .unwrap_or_default();
+        fn walk(base: &Path, dir: &Path, out: &mut Vec<String>) {
+            if let Ok(rd) = std::fs::read_dir(dir) {
+                for e in rd.filter_map(|e| e.ok()) {
+                    let p = e.path();
+                    if p.is_dir() {
+                        walk(base, &p, out);
+                    } else if let Ok(rel) = p.strip_prefix(base) {
+                        out.push(rel.to_string_lossy().to_string());
+                    }
+                }
+            }
+        }
+        let mut v = vec![];
+        walk(&self.path, &self.path, &mut v);
         v.sort();
         v
     }
